@@ -12,7 +12,13 @@ def one_hot(t, num_classes=-1):
 
 
 def normalize(t, p=2.0, dim=1, eps=1e-12):
-    raise ShimUnsupported("F.normalize")
+    """x / max(||x||_p, eps) along dim (torch semantics, note the ABSOLUTE eps)"""
+    import torch
+    if p not in (2, 2.0):
+        raise ShimUnsupported("F.normalize p != 2")
+    nrm = t.norm(2, dim, keepdim=True)
+    den = nrm._like([x if bool(x >= eps) else torch._lift(eps) for x in nrm._flat()])
+    return t / den
 
 
 def __getattr__(name):
